@@ -58,6 +58,11 @@ def run(ctx):
             cases.append((len(cases), [dress(a), dress(b)]))
         for _ in range(20000 if ctx.thorough else 2500):
             cases.append((len(cases), [dress(rng.choice(scores)) for _ in range(3)]))
+        # a member that is nothing but a rest (Sequence().pad(n)) and outlasts the others, in both positions
+        for k, a in enumerate(scores[:: (1 if ctx.thorough else 3)]):
+            rest = {"notes": [], "extras": [], "dur": 40 + 8 * (k % 5)}
+            cases.append((len(cases), [dict(a, extras=[]), rest]))
+            cases.append((len(cases), [rest, dict(a, extras=[])]))
         for _ in range(20000 if ctx.thorough else 2500):
             fam = []
             for _ in range(rng.randint(2, 3)):
